@@ -239,7 +239,7 @@ func TestUnmarshalAcceptsOnlyJSON(t *testing.T) {
 		Name: "unmarshal-accepts-only-json",
 		Rule: "target = any linked message type (rich test messages, structpb Value/Struct/ListValue, Any favoured), DiscardUnknown on/off; input = descriptor-directed valid document with syntax variety (JSON/proto names, quoted/exponent/fraction numbers, escapes, whitespace) | 1-3 token/byte mutations of one (hostile numbers such as 1e / 01 / 1. / .5, bad escapes, bad literals, structure damage, truncation, garbage) | token soup | random bytes. Oracle: own RFC 8259 recogniser, which must agree with encoding/json.Valid on every input; whatever protojson.Unmarshal or the raw token loop accepts must be valid. non-trivial = accepted input of >= 3 tokens with a fraction/exponent number or an escape, or rejected input whose first defect lies after byte 3",
 		Draw: drawInput, Check: checkInput, NonTrivial: inputNonTrivial, Classes: inputClasses,
-		Quick: 60000, Thorough: 800000,
+		Quick: 60000, Thorough: 500000,
 	})
 }
 
@@ -461,7 +461,7 @@ func TestMarshalOutputsAreJSON(t *testing.T) {
 			}
 			return out
 		},
-		Quick: 16000, Thorough: 120000,
+		Quick: 16000, Thorough: 80000,
 	})
 }
 
